@@ -509,6 +509,11 @@ func build(tier string) []explore.Scenario {
 	add(cfg{name: "q-primary/startup-race/preexisting", q: true, inputs: []inSpec{{tInt, "", qp}}, pre: []wop{"create a", "create b"}, script: []wop{"update a"}, prologue: false, bounds: b0})
 	add(cfg{name: "q-primary+mapped/update-mapped", q: true, inputs: []inSpec{{tInt, "", qp}, {tStr, "", qm}}, pre: []wop{"create a", "create b", "create m1"}, script: []wop{"update m1", "update a"}, prologue: true, bounds: b0})
 	add(cfg{name: "q-primary+mapped-destroy-ready", q: true, inputs: []inSpec{{tInt, "", qp}, {tStr, "", qmd}}, pre: []wop{"create a", "create b", "create m1"}, script: []wop{"teardown m1"}, prologue: true, bounds: b0})
+	// one mapped event matching two declarations of one queue controller (by-ID, or kind-wide and by-ID), only one
+	// of them destroy-ready, in both declaration orders
+	add(cfg{name: "q-primary+mapped-destroy-ready-id-m2+mapped-id-m1/update-m1", q: true, inputs: []inSpec{{tInt, "", qp}, {tStr, "m2", qmd}, {tStr, "m1", qm}}, pre: []wop{"create a", "create b", "create m1", "create m2"}, script: []wop{"update m1"}, prologue: true, bounds: b0[:len(b0)-1]})
+	add(cfg{name: "q-primary+mapped-destroy-ready-kind+mapped-id-m1/update-m1", q: true, inputs: []inSpec{{tInt, "", qp}, {tStr, "", qmd}, {tStr, "m1", qm}}, pre: []wop{"create a", "create b", "create m1"}, script: []wop{"update m1"}, prologue: true, bounds: b0[:len(b0)-1]})
+	add(cfg{name: "q-primary+mapped-id-m1+mapped-destroy-ready-kind/update-m1", q: true, inputs: []inSpec{{tInt, "", qp}, {tStr, "m1", qm}, {tStr, "", qmd}}, pre: []wop{"create a", "create b", "create m1"}, script: []wop{"update m1"}, prologue: true, bounds: b0[:len(b0)-1]})
 	add(cfg{name: "q-primary/after-run", q: true, inputs: []inSpec{{tInt, "", qp}}, when: "after-run", pre: pre, script: []wop{"update a"}, prologue: true, bounds: b0})
 	if tier == "thorough" {
 		add(cfg{name: "weak-kind/3updates", inputs: []inSpec{{tInt, "", w}}, pre: pre, script: []wop{"update a", "create b", "update a"}, prologue: true, bounds: []int{0, 1, 2}})
